@@ -194,7 +194,14 @@ type exprParser struct {
 	tok   string // last token read
 	isTag bool
 	pos   int // position (start) of last token
+
+	size int // number of operands and operators parsed so far
 }
+
+// maxSize bounds the size (and with it the nesting depth) of an expression:
+// the parser is recursive, and a line of several million parentheses would
+// otherwise exhaust the stack, which cannot be recovered from.
+const maxSize = 1000
 
 // parseExpr parses a boolean build tag expression.
 func parseExpr(text string) (x Expr, err error) {
@@ -242,6 +249,9 @@ func (p *exprParser) and() Expr {
 // On entry, the next input token has not yet been lexed.
 // On exit, the next input token has been lexed and is in p.tok.
 func (p *exprParser) not() Expr {
+	if p.size++; p.size > maxSize {
+		panic(&SyntaxError{Offset: p.pos, Err: "build expression too large"})
+	}
 	p.lex()
 	if p.tok == "!" {
 		p.lex()
